@@ -1811,3 +1811,11 @@ def run(status, changed, fns):
     except Exception as ex:      # never fatal for the functions above; recorded as a refusal
         status["failed"]["ext"] = f"internal: {type(ex).__name__}: {ex}"
     # ---- END hook BT3
+
+    # ---- BEGIN hook BT5: typed conversion subset (tools/rs2lean_conv.py): Digest/element conversions, codec leaves, Merkle indices
+    try:
+        import rs2lean_conv
+        rs2lean_conv.run(status, changed, fns, read_src)
+    except Exception as ex:      # never fatal for the functions above; recorded as a refusal
+        status["failed"]["conv"] = f"internal: {type(ex).__name__}: {ex}"
+    # ---- END hook BT5
